@@ -934,9 +934,9 @@ Proof.
         destruct (is_pipe s3) eqn:Hp3;
           cbn [eof_ok runB fold_left kstep]; rewrite Hshort; fold m1; fold (runB strict m1 evs);
           rewrite Hr; cbn [partial set_partial set_flags oracle is_pipe]; rewrite ?Hor.
-        -- repeat split; auto. intros Hx. left. congruence.
+        -- repeat split; auto; try congruence. intros Hx. left. congruence.
         -- assert (strict = true) by (destruct Hsp as [Hx|Hx]; [exact Hx|congruence]). subst strict.
-           repeat split; auto.
+           repeat split; auto; try congruence.
            intros _. right. intros Hh. unfold m1; cbn. rewrite Hh. cbn. apply orb_true_r.
       * set (m1 := mkB (k_hup m) (k_fin m || (strict && k_hup m && false))).
         match goal with |- context [call_read_cb E ?s2 nread ?bf ?off nread] =>
@@ -1170,7 +1170,7 @@ Qed.
 (* the hypotheses of eof_once_after_data are satisfiable on a run that ends in
    the short-cut EOF: 5 bytes, closed peer, one 64-byte buffer *)
 Lemma eof_hypotheses_satisfiable :
-  let tr := snd (exec (mkEnv (fun _ => mkBuf true 64) (fun _ => [])) (init false [Data 5])
+  let tr := snd (exec (mkEnv (fun _ => mkBuf true 64) (fun _ => [])) (init false false [Data 5])
                       [OStart 1; ORun 17; ORun 17]) in
   kernel_ok true monB0 tr /\ In (ERead 1 UV_EOF None 0 0) tr /\ delivered tr = [(0, 5)].
 Proof.
@@ -1298,3 +1298,14 @@ Proof.
     rewrite !nallocs_app. cbn. lia.
   - change (EPoll raw :: e1) with ([EPoll raw] ++ e1). rewrite nallocs_app. cbn. lia.
 Qed.
+
+(* item 20 on the repaired code: the same kernel answers on an IPC pipe now give
+   "A", "BBBB", then one UV_EOF carrying the buffer of the read that returned 0 *)
+Lemma item20_repaired :
+  let tr := snd (exec wit_env (init true true wit_oracle) [OStart 1; ORun 17; ORun 17; ORun 17; ORun 17]) in
+  kernel_ok false monB0 tr /\
+  delivered tr = [(0, 1); (1, 4)] /\
+  filter (fun e => match e with ERead _ n _ _ _ => n =? UV_EOF | _ => false end) tr =
+    [ERead 1 UV_EOF (Some 2%nat) 0 0] /\
+  eof_data_b tr = true.
+Proof. vm_compute. repeat split. Qed.
